@@ -95,6 +95,17 @@ def identify_case(ctx, mods, label, path, markers=None, at_offset0=True):
     agg.count("identifications", 2)
     if r1 != r2:
         agg.violation("identify-not-deterministic", f"two calls on the same bytes: {r1} vs {r2}", w)
+    # the reporting options are presentation only
+    for kw in ({"print_results": True}, {"print_properties": True}, {"print_results": True, "print_properties": True}):
+        try:
+            rv = quiet(polyglot.identify_pytorch_file_format, path, **kw)
+        except Exception as e:
+            agg.violation(f"identify-raises:{type(e).__name__}", f"identification with {kw} raised: {str(e)[:120]}", w)
+            break
+        agg.count("identifications")
+        if rv != r1:
+            agg.violation("identify-depends-on-print-option", f"with {kw} the result is {rv}, without it {r1}", w)
+            break
     for name, s in rec.events:
         bad = False
         if name == "open" and isinstance(s[0], str) and os.path.abspath(s[0]) == os.path.abspath(path):
